@@ -1,4 +1,7 @@
+#include <sstream>
+
 #include <occa/internal/lang/expr/stringNode.hpp>
+#include <occa/internal/lang/token/stringToken.hpp>
 #include <occa/internal/utils/string.hpp>
 
 namespace occa {
@@ -6,10 +9,17 @@ namespace occa {
     stringNode::stringNode(token_t *token_,
                            const std::string &value_) :
       exprNode(token_),
-      value(value_) {}
+      encoding(encodingType::none),
+      value(value_) {
+      // Only the token knows the encoding prefix of the literal: L"", u8"", R"()"
+      if (token && (token->type() & tokenType::string)) {
+        encoding = token->to<stringToken>().encoding;
+      }
+    }
 
     stringNode::stringNode(const stringNode &node) :
       exprNode(node.token),
+      encoding(node.encoding),
       value(node.value) {}
 
     stringNode::~stringNode() {}
@@ -19,11 +29,15 @@ namespace occa {
     }
 
     exprNode* stringNode::clone() const {
-      return new stringNode(token, value);
+      return new stringNode(*this);
     }
 
     void stringNode::print(printer &pout) const {
-      pout << "\"" << escape(value, '"') << "\"";
+      // Same text as the string token: encoding prefix and raw string delimiters
+      std::stringstream ss;
+      io::output out(ss);
+      stringToken(fileOrigin(), encoding, value, "").print(out);
+      pout << ss.str();
     }
 
     void stringNode::debugPrint(const std::string &prefix) const {
